@@ -339,7 +339,7 @@ theorem rt_prim (k : Kind) (v : GoVal) (val : Value)
     (hkf4 : v.isBytesByValue = false) (hm : marshalPrim k v = .ok val) :
     unmarshalPrim k val v.zero = .ok (canonGo k v) := by
   have hfmt : ∀ i, inInt64 i = true → parseInt64? (formatInt i) = some i := fun i h => by
-    simp only [inInt64, decide_eq_true_eq] at h; exact parseInt64_formatInt i h.1 h.2
+    simp only [inInt64, decide_eq_true_eq] at h; exact parseInt64_formatInt_range i h.1 h.2
   cases v with
   | ptr n x =>
     cases x <;> cases k <;> cases n <;>
@@ -398,7 +398,7 @@ theorem marshalPrim_ok_unmarshal_ok (k : Kind) (v : GoVal) (val : Value)
     ∃ v', unmarshalPrim k val v.zero = .ok v' := by
   by_cases hz : v.isZero = false
   · exact ⟨_, rt_prim k v val hdoc hz hrange hkf4 hm⟩
-  · have hfmt0 : parseInt64? (formatInt 0) = some 0 := parseInt64_formatInt 0 (by decide) (by decide)
+  · have hfmt0 : parseInt64? (formatInt 0) = some 0 := parseInt64_formatInt_range 0 (by decide) (by decide)
     cases v with
     | ptr n x =>
       cases x <;> cases k <;> cases n <;>
